@@ -27,8 +27,7 @@ var _ time.Time
 //@   trusted
 //@   modifies nothing
 
-//@ func astra.NewResolver
-//@   trusted
+//@ func astra.NewResolver [C19]
 //@   ensures result != nil
 //@   modifies nothing
 
